@@ -62,8 +62,10 @@ def _names(node, ctx=None):
     return {n.id for n in ast.walk(node) if isinstance(n, ast.Name) and (ctx is None or isinstance(n.ctx, ctx))}
 
 
-def normalize(fn_node, body):
-    """Two mechanical, semantics-preserving rewritings applied to the extracted body before verification (listed in the evidence
+def normalize(fn_node, body, cls=None):
+    """Mechanical, semantics-preserving rewritings applied to the extracted body before verification (besides the two below:
+    `a, b = x, y` over plain names/constants with no target read on the right becomes the single assignments in order; zero-argument
+    `super()` becomes `super(C, self)`), so that a loop written out by hand is seen as the comprehension it is (listed in the evidence
     as part of the extraction), so that a loop written out by hand is seen as the comprehension it is:
 
       ACC = []                                   ACC = [E for T in S if C]
@@ -120,6 +122,16 @@ def normalize(fn_node, body):
                 out.append(ast.fix_missing_locations(ast.copy_location(new, st)))
                 i += 1
                 continue
+            # tuple assignment of plain names / constants = the single assignments in order (no target is read on the right)
+            if (isinstance(st, ast.Assign) and len(st.targets) == 1 and isinstance(st.targets[0], ast.Tuple) and isinstance(st.value, ast.Tuple)
+                    and len(st.targets[0].elts) == len(st.value.elts) and st.value.elts
+                    and all(isinstance(v, (ast.Name, ast.Constant)) for v in st.value.elts)
+                    and all(isinstance(t, (ast.Name, ast.Attribute)) and not isinstance(t, ast.Starred) for t in st.targets[0].elts)
+                    and not ({t.id for t in st.targets[0].elts if isinstance(t, ast.Name)} & {v.id for v in st.value.elts if isinstance(v, ast.Name)})):
+                for t, v in zip(st.targets[0].elts, st.value.elts):
+                    out.append(ast.fix_missing_locations(ast.copy_location(ast.Assign(targets=[t], value=v, type_comment=None), st)))
+                i += 1
+                continue
             # recurse into compound statements
             for fld in ("body", "orelse", "finalbody"):
                 sub = getattr(st, fld, None)
@@ -129,7 +141,16 @@ def normalize(fn_node, body):
             i += 1
         return out
     import copy
-    return rewrite(copy.deepcopy(body))
+    out = rewrite(copy.deepcopy(body))
+    # zero-argument super() inside a method of class C with first parameter s is super(C, s)
+    if cls and fn_node.args.args:
+        first = fn_node.args.args[0].arg
+        for st in out:
+            for n in ast.walk(st):
+                if isinstance(n, ast.Call) and isinstance(n.func, ast.Name) and n.func.id == "super" and not n.args and not n.keywords:
+                    n.args = [ast.Name(id=cls, ctx=ast.Load()), ast.Name(id=first, ctx=ast.Load())]
+                    ast.fix_missing_locations(n)
+    return out
 
 
 def mangle(cls, attr):
@@ -200,7 +221,7 @@ def members(relpath, cls):
         if isinstance(fn, ast.FunctionDef):
             role, kept = _role(fn)
             _check_decorators(relpath, cls, fn, kept)
-            out[(mangle(cls, fn.name), role)] = FuncInfo(relpath, cls, fn.name, role, fn, normalize(fn, strip_doc(fn.body)), kept)
+            out[(mangle(cls, fn.name), role)] = FuncInfo(relpath, cls, fn.name, role, fn, normalize(fn, strip_doc(fn.body), cls), kept)
     return out
 
 
@@ -238,7 +259,8 @@ def class_assign(relpath, cls, name):
 
 
 def class_bases(relpath, cls):
-    return [ast.unparse(b) for b in class_node(relpath, cls).bases]
+    # `class X(object):` and `class X:` are the same class in Python 3
+    return [b for b in (ast.unparse(b) for b in class_node(relpath, cls).bases) if b != "object"]
 
 
 def keyword_call_sites(name):
